@@ -37,6 +37,17 @@ const (
 	rwSrcName = "srcpkg"
 )
 
+func init() {
+	// engine M asks for the fields registry.New computes (see tmpl.RealRegistry)
+	tmpl.RealRegistry = func(prog *load.Program, moqPkg string) (*interp.Struct, error) {
+		w, _, err := regNew(prog, nil, moqPkg, nil, nil, 1)
+		if err != nil || w == nil || w.reg == nil {
+			return nil, err
+		}
+		return w.reg.Elem, nil
+	}
+}
+
 func namedStructOf(prog *load.Program, pkgPath, name string) (*types.Named, error) {
 	pk := prog.ByPath[pkgPath]
 	if pk == nil || pk.Types == nil {
@@ -163,6 +174,10 @@ func regNew(prog *load.Program, specs []importSpec, moqPkg string, typesPkg *int
 	srcPkg := &interp.Ptr{Elem: fullStruct(m, tPkg, map[string]interp.Value{
 		"Name": interp.Lit(rwSrcName), "PkgPath": interp.Lit(rwSrcPath), "Types": typesPkg,
 		"Syntax": files, "Errors": errList,
+		// the package has source files; what is in them is not part of the abstract package (a generator that
+		// reads them is outside the vocabulary, and undecided)
+		"GoFiles":         &interp.List{Elems: []interp.Value{interp.Tok("«file0.go»"), interp.Tok("«file1.go»")}},
+		"CompiledGoFiles": &interp.List{Elems: []interp.Value{interp.Tok("«file0.go»"), interp.Tok("«file1.go»")}},
 	})}
 	m.Ext["golang.org/x/tools/go/packages.Load"] = func(mm *interp.Machine, pos token.Pos, recv interp.Value, args []interp.Value) (interp.Value, error) {
 		dir := ""
